@@ -301,3 +301,16 @@ MUTANTS = [
     M("c10-per-index-try", KV, "                            for index in self.write_indexes:\n                                index.write(event, txn)\n", "                            for index in self.write_indexes:\n                                try:\n                                    index.write(event, txn)\n                                except Exception:\n                                    log.exception(\"index\")\n", "C10.region"),
 ]
 EQUIVS = []
+
+# functions whose syntactic mutants are used for the thorough tier's sensitivity figure (sa/automut.py)
+ANCHORS = [
+    "nostr_relay.storage.kv:Index.write",
+    "nostr_relay.storage.kv:Index.clear",
+    "nostr_relay.storage.kv:IdIndex.write",
+    "nostr_relay.storage.kv:TagIndex.convert",
+    "nostr_relay.storage.kv:TagIndex.to_key",
+    "nostr_relay.storage.kv:WriterThread.run",
+    "nostr_relay.storage.kv:WriterThread._delete_event",
+    "nostr_relay.storage.kv:LMDBStorage.setup",
+    "nostr_relay.storage.kv:LMDBStorage.write_tombstone",
+]
